@@ -30,9 +30,11 @@ macro_rules! dispatch {
             "C08" => $f(&checks::c08::C08, $($arg),*),
             "C09" => $f(&checks::c09::C09, $($arg),*),
             "C10" => $f(&checks::c10::C10, $($arg),*),
+            "C11" => $f(&checks::c11::C11, $($arg),*),
             "C12" => $f(&checks::c12::C12, $($arg),*),
             "C13" => $f(&checks::c13::C13, $($arg),*),
             "C14" => $f(&checks::c14::C14, $($arg),*),
+            "C19" => $f(&checks::c19::C19, $($arg),*),
             "C05" => $f(&checks::c05::C05, $($arg),*),
             other => {
                 eprintln!("harness error: unknown or unclaimed property {}", other);
